@@ -245,8 +245,8 @@ func init() {
 		jobs: func(tier string) []*job {
 			return []*job{
 				{variant: "plain", mode: "emit", shards: 1, maxResume: 0},
-				{variant: "race", mode: "main", shards: 8, maxResume: 0, gomaxprocs: 16, weight: 2, memlimit: "6GiB", quickTimeout: 15 * time.Minute, stage: 1},
-				{variant: "plain", mode: "main", shards: 8, maxResume: 0, gomaxprocs: 16, weight: 2, memlimit: "6GiB", stage: 1},
+				{variant: "race", mode: "main", shards: 8, maxResume: 0, gomaxprocs: 16, weight: 4, memlimit: "3GiB", quickTimeout: 15 * time.Minute, stage: 1},
+				{variant: "plain", mode: "main", shards: 8, maxResume: 0, gomaxprocs: 16, weight: 2, memlimit: "3GiB", stage: 1},
 				// one cold-start trial per process life: many short processes
 				{variant: "plain", mode: "coldstart", shards: 48, maxResume: 0, gomaxprocs: 16, weight: 2, stage: 1},
 				{variant: "race", mode: "coldstart", shards: 16, maxResume: 0, gomaxprocs: 16, weight: 2, stage: 1},
